@@ -30,7 +30,7 @@ ASSUMPTIONS = [
     "non-finite floats have no specified JSON encoding: excluded from the text comparison (A25)",
     "logical-type schemas are not used here",
 ]
-N = {"quick": 12000, "thorough": 400000}
+N = {"quick": 32000, "thorough": 800000}
 TIME_LIMIT = {"quick": 40, "thorough": 560}
 SHARDS = 16
 REACH = {
